@@ -902,7 +902,15 @@ def r_restock(F, R):
         if not loops:
             R.undecided_site("R-DESCENT", b.label(), "Decoder::next has no loop: how it descends through the table levels is not decided")
             continue
-        inside = [bi for bi in polls if in_loop(b, bi)]
+        # ... inside the loop that walks the table: a poll that shares a cycle with a table lookup
+        # (a bounds-checked subscript of the decode table) -- a read-ahead loop of its own in front
+        # of the walk restocks once per symbol, not once per table level
+        from expr import reach_strict as _rs
+        lookups = [bi for bi in b.live_blocks() if b.term(bi)["k"] == "assert" and b.term(bi).get("msg") == "bounds"]
+        if lookups:
+            inside = [p_ for p_ in polls if any(q_ in _rs(b, p_) and p_ in _rs(b, q_) for q_ in lookups)]
+        else:
+            inside = [bi for bi in polls if in_loop(b, bi)]
         R.check("R-DESCENT", b.label(), bool(inside), construct="the bit window can be restocked in every round of the table walk",
                 where=b.where(), detail="polls of the input at blocks %s, of which inside the loop: %s" % (polls, inside) +
                 ("" if inside else ": the input is polled once, in front of the loop; after descending into a second table level "
